@@ -124,6 +124,8 @@ def check_window(item):
         if cmap is not None and not bad:
             for o in cmap:
                 a = START + o
+                if a >= end:
+                    continue          # a map entry outside the range says nothing about the range
                 blk = max(k for k in keys if k <= a)
                 if ctls[blk] != 'c':
                     bad.append('code map address %d lies in a %r block' % (a, ctls[blk]))
@@ -178,6 +180,8 @@ def replay(case):
             bad.append('no terminating directive at %d: %r' % (end, sorted(ctls.items())))
         if case['cmap'] is not None and not bad:
             for o in case['cmap']:
+                if START + o >= end:
+                    continue
                 blk = max(k for k in keys if k <= START + o)
                 if ctls[blk] != 'c':
                     bad.append('code map address %d lies in a %r block' % (START + o, ctls[blk]))
@@ -202,6 +206,8 @@ def main():
                 maps = [None, (0,)]
                 if len(prefix) >= 2:
                     maps.append((0, len(prefix)))
+                if after == 0 and nsym == 1:
+                    maps.append((0, len(prefix) + nsym))        # the end address itself is in the map (executed code follows the range)
                 for cmap in maps:
                     items.append(('win', pkey, nsym, after, cmap))
     # executed code continuing after an instruction that a misaligned decode (from the skipped byte) sees differently
